@@ -490,12 +490,32 @@ func runHarness(o *Options, prog *load.Program, s *Spec) (*harnessStats, error) 
 	}
 	close(ch)
 	var wg sync.WaitGroup
+	active := map[*exec.Exec]string{}
+	if o.Verbose {
+		tick := time.NewTicker(15 * time.Second)
+		defer tick.Stop()
+		go func() {
+			for range tick.C {
+				mu.Lock()
+				var act []string
+				for _, a := range active {
+					act = append(act, a)
+				}
+				sort.Strings(act)
+				fmt.Fprintf(os.Stderr, "[%s] paths=%d queue=%d active=%v\n", s.Name, hs.Paths, len(ch), act)
+				mu.Unlock()
+			}
+		}()
+	}
 	execs := []*exec.Exec{ex0}
 	var werr error
 	stop := false
 	worker := func(ex *exec.Exec) {
 		defer wg.Done()
 		for u := range ch {
+			mu.Lock()
+			active[ex] = prefixStr(u.prefix)
+			mu.Unlock()
 			ex.SetPrefix(u.prefix)
 			for {
 				res := ex.RunPath(fn)
@@ -549,6 +569,20 @@ func runHarness(o *Options, prog *load.Program, s *Spec) (*harnessStats, error) 
 	}
 	hs.Wall = time.Since(t0)
 	return hs, werr
+}
+
+func prefixStr(p []exec.PrefixEntry) string {
+	var parts []string
+	for _, e := range p {
+		if e.Tag != "" {
+			parts = append(parts, fmt.Sprintf("%s=%d", e.Tag, e.Opt))
+		} else if e.Enum {
+			parts = append(parts, fmt.Sprintf("#%d", e.Val))
+		} else {
+			parts = append(parts, fmt.Sprintf("?%d", e.Opt))
+		}
+	}
+	return strings.Join(parts, ",")
 }
 
 func choiceStr(cs []exec.ChoiceRec) string {
